@@ -24,7 +24,8 @@ CHECKS = {
              'double-couple states), the balancing-density kernels equal jump_params, the uniform-prior ratio equals the ratio of the Python '
              'priors (all four model combinations), the acceptance kernel with its three function pointers takes the shift / jump-down / '
              'jump-up formula in exactly the stated cases, and composed: the compiled shift acceptance with the uniform prior IS the Python '
-             'Metropolis-Hastings acceptance; the flat-prior ratio across a model jump is proved different (known finding). For every real '
+             'Metropolis-Hastings acceptance and the compiled jump-up / jump-down acceptances with the Gaussian balancing draw ARE the Python '
+             'jump acceptances; the flat-prior ratio across a model jump is proved different (known finding). For every real '
              'input, where the (skipped) *_cython tests compare a few fixed inputs.',
         note=AX_R + 'NOT covered: the compiled binaries, C arithmetic and memory views, the station/sample loops and dispatch wrappers, '
              'random number generation (new_samples, random_mt/dc), log-domain reductions, the module constant ND (a parameter of the model with the stated beta-density hypothesis), and the extension '
@@ -215,8 +216,11 @@ CHECKS = {
         note='generic theorems are closed under the global context; the R instance uses the three real-number axioms; numpy broadcasting, '
              'try/except flow and LnPDF plumbing are modelled by hand and tied by correspondence; exp/log comparisons use 1e-8 (wider for '
              'fractional errors below 1e-2, loose in the float underflow regime), zero/non-zero status exact; kernels themselves are '
-             'C02/C03; builders are C11; whole front-end cases (event dictionary with several data types and location records -> '
-             'Inversion._station_angles -> ForwardTask) are judged by a direct oracle that matches observations to location records by name.',
+             'C02/C03; builders are C11. Composition theorem (Model/FrontEnd.v = Model/Matrices.v feeding Model/Forward.v): for every event, '
+             'location records that list their stations alike and every tensor, the value at record k is the product over the supplied '
+             'observations whose station the records list of that observation\'s probability at its own station\'s ray (matched by name). '
+             'Whole front-end cases (event dictionary -> Inversion._station_angles -> ForwardTask) are tied to that model at Q inside Coq '
+             '(integer-coded angles, atoms = per-observation probabilities of the implementation) and judged by a direct oracle.',
         design='6 C01'),
     'C05': dict(
         technique='Coq proof over R (field/lra, Coquelicot FTC, Interval) about acceptance rules, proposal density and priors translated on every run from markov_chain_monte_carlo.py, generic in the proposal density and prior',
@@ -282,6 +286,7 @@ CHECKS = {
 }
 
 NA_REASON = 'check not built yet (work in progress; see DESIGN.md section 6)'
+NOT_APPLICABLE_REASONS = {}     # property id -> reason, for properties the technique genuinely cannot express (none)
 
 
 def main():
@@ -294,6 +299,10 @@ def main():
          'engines': [{'name': 'coq-proof', 'path': 'bin/check', 'serves_properties': sorted(CHECKS),
                       'kind_free_text': 'Coq 8.16.1 theorems over models regenerated from /repo (py2coq) or hand-written and tied by vm_compute correspondence'}],
          'checks': [], 'not_applicable': []}
+    # every property has an entry: a property silently missing from CHECKS once slipped into not_applicable
+    missing = [cid for cid in ALL if cid not in CHECKS and cid not in NOT_APPLICABLE_REASONS]
+    if missing:
+        raise SystemExit('mk_manifest: no CHECKS entry and no not-applicable reason for %s' % missing)
     for cid in ALL:
         if cid in CHECKS:
             c = CHECKS[cid]
